@@ -1,9 +1,9 @@
 (* Program.v -- model of program_utils.read_program / compile_program and program_defs
-   (7-bit text; whitespace = Python's str.isspace / regex \s on ASCII: 9-13, 28-32). *)
+   (Latin-1 text; whitespace = Python's str.isspace / regex \s on code points below 256: 9-13, 28-32, 133, 160). *)
 From PS Require Import Base Str.
 
 Definition is_ws (c : ascii) : bool :=
-  let n := nat_of_ascii c in ((9 <=? n) && (n <=? 13)) || ((28 <=? n) && (n <=? 32)).
+  let n := nat_of_ascii c in ((9 <=? n) && (n <=? 13)) || ((28 <=? n) && (n <=? 32)) || (n =? 133) || (n =? 160).
 Fixpoint lstrip (s : string) : string :=
   match s with
   | EmptyString => EmptyString
